@@ -109,6 +109,8 @@ class C07(Check):
 
     def execute(self, case):
         log = core.EventLog()
+        imgsim.fi()
+        imgsim.set_hash_salt(case.get('content') or case)
         data, info = F.build(case['content'])
         n = len(data)
         fmt = info['fmt']
